@@ -197,6 +197,7 @@ type pathCtx struct {
 	ufCache                                              map[string]*Term
 	locksHeld                                            int
 	pools                                                map[*value][]value
+	maxDraws                                             int // harness-stated bound on dice per path (0 = none)
 	sharedWrites                                         []string
 	sharedWriteNames                                     map[string]bool
 	jsonSent                                             map[int64]*Term
